@@ -835,3 +835,119 @@ def concat_helper(ctx, fn):
         res = ("HMAC", bexpr(ctx, se, i0[2][0][2][0]), src[1])
     _helper_cache[key] = res
     return res
+
+
+# --------------------------------------------------------------------------- verdict helpers
+
+_verdict_cache = {}
+BRANCH = "<std::result::Result<T, E> as std::ops::Try>::branch"
+
+
+def verdict_helper(ctx, fn):
+    """crate-local `fn(a, b) -> Result<(), E>` (or bool) whose outcome is decided by one
+    whole-value equality of two of its parameters: returns dict(i, j, kind, err_fields) where
+    err_fields maps an error field name to the parameter it carries; None otherwise"""
+    key = (id(ctx), fn)
+    if key in _verdict_cache:
+        return _verdict_cache[key]
+    _verdict_cache[key] = None
+    b = ctx.fb.body(fn)
+    if b is None or b.kind not in ("Fn", "AssocFn") or "output" not in b.d:
+        return None
+    out = ctx.fb.ty(b.d["output"])
+    is_res = out.k == "adt" and out.path == "std::result::Result"
+    is_bool = out.k == "bool"
+    if not (is_res or is_bool):
+        return None
+    se = ctx.wrap.run(fn)
+    if se is None:
+        return None
+    cmps = compare_sites(ctx, se)
+    if len(cmps) != 1:
+        return None
+    c = cmps[0]
+    ops = [canon(ctx, se, a) for a in c["args"]]
+    if not all(o[0] == "param" for o in ops) or ops[0] == ops[1]:
+        return None
+    ok, why = whole_value_type(ctx.fb, c["self_ty"])
+    if not ok or (c["rhs_ty"] is not None and c["rhs_ty"].s != c["self_ty"].s):
+        return None
+    res = {"i": ops[0][1], "j": ops[1][1], "kind": "result" if is_res else "bool", "err_fields": {}, "why": why}
+    if is_bool:
+        r = strip(se.ret)
+        neg = False
+        while r[0] == "unop" and r[1] == "Not":
+            neg = not neg
+            r = r[2]
+        if r != strip(c["term"]) or ((c["op"] == "eq") == neg):
+            return None
+    else:
+        g = compare_gate(ctx, se, c)
+        if g is None:
+            return None
+        sw, eq_edge, ne_edge = g
+        body = se.body
+        oks = [bi for bi, _, _ in blocks_constructing(body, "std::result::Result", "Ok")]
+        errs = blocks_constructing(body, "std::result::Result", "Err")
+        if not oks or not errs:
+            return None
+        if not all(cfg.must_pass_edge(body, eq_edge, o) for o in oks):
+            return None
+        if not all(cfg.must_pass_edge(body, ne_edge, bi) for bi, _, _ in errs):
+            return None
+        # error payload: an aggregate whose fields are (canonically) the two parameters
+        for (bi, si), (loc, v) in se.assigns.items():
+            if v[0] == "agg" and v[1] == "adt" and v[2] != "std::result::Result" and ctx.fb.adts.get(v[2]):
+                names = [f["name"] for f in ctx.fb.adt_fields(v[2])]
+                for nme, op in zip(names, v[4]):
+                    co = canon(ctx, se, op)
+                    if co[0] == "param":
+                        res["err_fields"][nme] = co[1]
+                res["err_adt"] = v[2]
+    _verdict_cache[key] = res
+    return res
+
+
+def proof_decisions(ctx, se):
+    """every decision of a body that is a whole-value comparison of two values, made inline
+    (`==` / `!=` + branch) or delegated to a verdict helper.  Each: dict(ops (canonical pair),
+    whole (ok, why), bb, eq_edge, ne_edge, err_fields {name: canonical term} | None, via)"""
+    out = []
+    body = se.body
+    for c in compare_sites(ctx, se):
+        ok, why = whole_value_type(ctx.fb, c["self_ty"])
+        same = c["rhs_ty"] is None or c["rhs_ty"].s == c["self_ty"].s
+        g = compare_gate(ctx, se, c)
+        out.append({"ops": [canon(ctx, se, a) for a in c["args"]], "whole": (ok and same, why), "bb": c["bb"], "eq_edge": g[1] if g else None, "ne_edge": g[2] if g else None, "err_fields": None, "via": "inline", "term": c["term"], "op": c["op"]})
+    for bb, info in se.term_info.items():
+        if info.get("k") != "call" or info["name"] not in ctx.fb.bodies:
+            continue
+        vh = verdict_helper(ctx, info["name"])
+        if vh is None:
+            continue
+        a = info["args"]
+        ops = [canon(ctx, se, a[vh["i"] - 1]), canon(ctx, se, a[vh["j"] - 1])]
+        T = strip(info["term"])
+        eq_edge = ne_edge = None
+        for sb, si in se.term_info.items():
+            if si.get("k") != "switch":
+                continue
+            d = strip(si["discr"])
+            if vh["kind"] == "result":
+                hit = d == ("discr", T) or (d[0] == "discr" and is_call(d[1], BRANCH) and strip(d[1][2][0]) == T)
+                if hit:
+                    tg = dict(si["targets"])
+                    if 0 in tg:
+                        eq_edge = (sb, tg[0])
+                        ne_edge = (sb, tg.get(1, si["otherwise"]))
+            else:
+                neg = False
+                while d[0] == "unop" and d[1] == "Not":
+                    neg = not neg
+                    d = d[2]
+                if d == T and len(si["targets"]) == 1 and si["targets"][0][0] == 0:
+                    t_true, t_false = si["otherwise"], si["targets"][0][1]
+                    eq_edge, ne_edge = ((sb, t_false), (sb, t_true)) if neg else ((sb, t_true), (sb, t_false))
+        ef = {n: canon(ctx, se, a[k - 1]) for n, k in vh["err_fields"].items()} if vh["kind"] == "result" else None
+        out.append({"ops": ops, "whole": (True, vh["why"] + " (in %s)" % info["name"]), "bb": bb, "eq_edge": eq_edge, "ne_edge": ne_edge, "err_fields": ef, "via": info["name"], "term": info["term"], "op": "eq"})
+    return out
